@@ -733,7 +733,7 @@ pub fn long_verdicts(ty: Ty, n: usize, only: Option<(u8, u64)>) -> (Vec<(Value, 
     (out, npoints)
 }
 
-/// A destination that keeps the first 100 bytes, its extent and where every write landed, and discards the rest:
+/// A destination that keeps the first 128 bytes (the header and the first record header), its extent and where every write landed, and discards the rest:
 /// files beyond 2 GiB without the memory.
 #[derive(Clone)]
 pub struct Sink(pub std::rc::Rc<std::cell::RefCell<SinkInner>>);
@@ -749,7 +749,7 @@ pub struct SinkInner {
 }
 impl Sink {
     pub fn new(fail_at: Option<u64>) -> Sink {
-        Sink(std::rc::Rc::new(std::cell::RefCell::new(SinkInner { head: vec![0; 100], pos: 0, extent: 0, nops: 0, fail_at, fired: false, small_writes: vec![] })))
+        Sink(std::rc::Rc::new(std::cell::RefCell::new(SinkInner { head: vec![0; 128], pos: 0, extent: 0, nops: 0, fail_at, fired: false, small_writes: vec![] })))
     }
 }
 impl SinkInner {
@@ -770,7 +770,7 @@ impl std::io::Write for Sink {
         let pos = d.pos;
         for (i, b) in buf.iter().enumerate() {
             let p = pos + i as u64;
-            if p >= 100 {
+            if p >= 128 {
                 break;
             }
             d.head[p as usize] = *b;
@@ -804,8 +804,8 @@ impl std::io::Seek for Sink {
 }
 
 /// a user-defined multipoint-typed shape whose content is `size` zero bytes
-struct Blob {
-    size: usize,
+pub struct Blob {
+    pub size: usize,
 }
 impl shapefile::record::HasShapeType for Blob {
     fn shapetype() -> shapefile::ShapeType {
@@ -889,7 +889,7 @@ pub fn giant_verdicts(only: Option<u64>) -> (Vec<(Value, String, String)>, u64) 
                         t.dedup();
                         t
                     };
-                    if a.head != b.head || a.extent != b.extent || tail(&a.small_writes) != tail(&b.small_writes) || shx.0.borrow().head != base.2 .0.borrow().head || shx.0.borrow().extent != base.2 .0.borrow().extent {
+                    if a.head[..100] != b.head[..100] || a.extent != b.extent || tail(&a.small_writes) != tail(&b.small_writes) || shx.0.borrow().head[..100] != base.2 .0.borrow().head[..100] || shx.0.borrow().extent != base.2 .0.borrow().extent {
                         out.push((cj, "giant-file:files-differ-after-later-finalize".to_string(), format!("operation {} of the .shp failed once during finalize on a file beyond 2 GiB; every later call succeeded and drop finalized, yet header / extent ({} vs {}) / record positions behind 2 GiB ({:?} vs {:?}) differ from the undisturbed run", k, a.extent, b.extent, tail(&a.small_writes).first(), tail(&b.small_writes).first())));
                     }
                 }
